@@ -290,7 +290,7 @@ func c20ExchangeOnce(c *c20Case, direct bool) {
 			return p
 		}
 		if direct {
-			docPtr().ServeHTTP(rec, req)
+			docPtr().ServeHTTP(c20Writer(c, rec), req)
 			return
 		}
 		opt := mocrelay.NewDefaultRelayOption()
@@ -310,7 +310,7 @@ func c20ExchangeOnce(c *c20Case, direct bool) {
 				w.Write([]byte("default handler"))
 			})
 		}
-		mux.ServeHTTP(rec, req)
+		mux.ServeHTTP(c20Writer(c, rec), req)
 		relay.Wait()
 	}()
 	res := rec.Result()
@@ -326,6 +326,42 @@ func c20ExchangeOnce(c *c20Case, direct bool) {
 		obs.ACAO = v
 	}
 	obs.Body = rec.Body.String()
+}
+
+// c20BusyWriter: a ResponseWriter in whose Header and WriteHeader calls another request for another document is
+// served (what a concurrent request does, at the moments that matter, without depending on the scheduler)
+type c20BusyWriter struct {
+	http.ResponseWriter
+	other *mocrelay.NIP11
+	depth int
+}
+
+func (w *c20BusyWriter) serveOther() {
+	if w.depth > 0 || w.other == nil {
+		return
+	}
+	w.depth++
+	defer func() { w.depth--; recover() }()
+	req := httptest.NewRequest("GET", "http://relay.example/", nil)
+	req.Header.Set("Accept", "application/nostr+json")
+	w.other.ServeHTTP(httptest.NewRecorder(), req)
+}
+
+func (w *c20BusyWriter) Header() http.Header {
+	w.serveOther()
+	return w.ResponseWriter.Header()
+}
+
+func (w *c20BusyWriter) WriteHeader(code int) {
+	w.serveOther()
+	w.ResponseWriter.WriteHeader(code)
+}
+
+func c20Writer(c *c20Case, rec *httptest.ResponseRecorder) http.ResponseWriter {
+	if c.Busy == nil {
+		return rec
+	}
+	return &c20BusyWriter{ResponseWriter: rec, other: c.Busy.To()}
 }
 
 // c20Exchange: one exchange; with Busy set, the exchange is repeated 150 times while four goroutines keep
